@@ -6,24 +6,28 @@
 (* update transaction is t = 0, h = 0).  Every transaction is one block.   *)
 (* A receive of a not yet received, correctly proven packet is accepted    *)
 (* exactly when both delays have passed, boundaries inclusive.             *)
+(* The configuration (TD, P) is a parameter of every operator so that one  *)
+(* TLC run can cover several connections.                                  *)
 (***************************************************************************)
 EXTENDS Integers
 
-CONSTANTS TD, P
-
-BD == IF P = 0 THEN 0 ELSE (TD + P - 1) \div P
-Passed(t, h) == (TD = 0 \/ t >= TD) /\ (BD = 0 \/ h >= BD)
+BDof(TD, P) == IF P = 0 THEN 0 ELSE (TD + P - 1) \div P
+Passed(TD, P, t, h) == (TD = 0 \/ t >= TD) /\ (BDof(TD, P) = 0 \/ h >= BDof(TD, P))
 
 InitState == [t |-> 0, h |-> 0, n |-> 0]
 
 \* a = [a |-> "Block" | "Recv", dt |-> ns since the previous block (>= 1)]
-Step(S, a) ==
+Step(TD, P, S, a) ==
     LET S1 == [S EXCEPT !.t = S.t + a.dt, !.h = S.h + 1] IN
     IF a.a = "Block" THEN [res |-> "ok", S |-> S1]
-    ELSE IF Passed(S1.t, S1.h) THEN [res |-> "ok", S |-> [S1 EXCEPT !.n = S.n + 1]]
+    ELSE IF Passed(TD, P, S1.t, S1.h) THEN [res |-> "ok", S |-> [S1 EXCEPT !.n = S.n + 1]]
     ELSE [res |-> "err", S |-> S1]
 
 \* time steps: one nanosecond, or exactly onto / just before / just after the moment the time delay has passed
-EdgeDts(S) == { d \in {1, 2, TD - 1 - S.t, TD - S.t, TD + 1 - S.t} : d >= 1 }
-Acts(S) == { [a |-> k, dt |-> d] : k \in {"Block", "Recv"}, d \in EdgeDts(S) }
+EdgeDts(TD, S) == { d \in {1, 2, TD - 1 - S.t, TD - S.t, TD + 1 - S.t} : d >= 1 }
+Acts(TD, S) == { [a |-> k, dt |-> d] : k \in {"Block", "Recv"}, d \in EdgeDts(TD, S) }
+
+\* configurations travel through cfg files as one integer TD * 1000 + P
+TDof(c) == c \div 1000
+Pof(c)  == c % 1000
 =============================================================================
